@@ -830,9 +830,15 @@ class StateNode(Generic[TContext, TEvent]):
             return initial
 
         # 🕰️ History pseudo-states are never a valid initial target.
+        raw_states = config.get("states", {})
+        # 🛡️ A malformed `states` value is reported (with the state's id) by
+        #    the shape validation in `__init__`; iterating it here raised a
+        #    raw AttributeError first.
+        if not isinstance(raw_states, dict):
+            return initial
         candidates = [
             key
-            for key, child in config.get("states", {}).items()
+            for key, child in raw_states.items()
             if not (isinstance(child, dict) and child.get("type") == "history")
         ]
 
